@@ -48,6 +48,8 @@ def _prof(name: str) -> Prof:
                 'leaf': Prof(symbol=0, exists=False, mu=False, implies=False, app=False),
                 'val': Prof(symbol=0, app=False),
                 'schem': Prof(symbol=0, app=False, metavars=2, subst=True, mv_cfgs=((0, 0, 0, 0), (1, 0, 0, 0), (0, 1, 0, 0))),
+                'schem_mixed': Prof(symbol=0, app=False, metavars=2, subst=True, mv_cfgs=((0, 0, 0, 0), (1, 0, 0, 0), (0, 1, 0, 0), (0, 0, 1, 0), (0, 0, 0, 1))),
+                'val_schem': Prof(symbol=0, app=False, metavars=2, mv_cfgs=((0, 0, 0, 0), (1, 0, 0, 0), (0, 1, 0, 0))),
                 'schem_small': Prof(symbol=0, app=False, mu=False, metavars=2, subst=True, mv_cfgs=((0, 0, 0, 0), (1, 0, 0, 0)), mv_shared=True),
             }
         )
@@ -377,6 +379,49 @@ PLUMBING = {
 RULES_AND_AXIOMS = ('Prop1', 'Prop2', 'Prop3', 'Quantifier', 'Existence', 'ModusPonens', 'Generalization', 'Substitution', 'Instantiate')
 
 
+def h_inst_adm(ctx: Any, n: int, m: int, twin: bool = False) -> None:
+    """L-inst: the instance relation the other lemmas quantify over.  On a Proved term whose metavariable occurrences
+    carry arbitrary constraint annotations (different ones on different occurrences of one id: such terms are
+    derivable, a plug may mention a metavariable with any annotation), an accepted Instantiate -- partial or total,
+    plugs possibly schematic, ids in either order -- respects the constraints of EVERY occurrence of every
+    instantiated id (the document's judgements, decided on the plug) and yields the textbook instance."""
+    from ..rsrt import Panic
+
+    tp = O.expand(gens.gen(ctx, n, _prof('schem_mixed')))
+    orders = [(0,), (1,), (0, 1), (1, 0)]
+    ids = list(orders[ctx.choose(len(orders), 'ids')])
+    sig = {k: O.expand(gens.gen_upto(ctx, m, _prof('val_schem'))) for k in ids}
+    ctx.count('reached')
+    ctx.sample({'theorem': O.show(tp), 'sigma': {k: O.show(v) for k, v in sig.items()}})
+    if twin:
+        ctx.violation('TWIN')
+    stack = [_P(sig[k]) for k in reversed(ids)] + [_T(tp)]
+    try:
+        _exec(stack, [_op('Instantiate'), len(ids), *ids])
+    except Panic:
+        ctx.count('rejected')
+        return
+    ctx.count('accepted')
+    what = lambda: f'{O.show(tp)} instantiated with { {k: O.show(v) for k, v in sig.items()} } is accepted'
+    for node in O.all_metavar_nodes(tp):
+        if node[1] not in sig:
+            continue
+        v = sig[node[1]]
+        for x in node[2]:
+            ctx.check(O.doc_e_fresh(v, x), 'C01.inst.inadmissible-instance-accepted[e_fresh]', what)
+        for X in node[3]:
+            ctx.check(O.doc_s_fresh(v, X), 'C01.inst.inadmissible-instance-accepted[s_fresh]', what)
+        for X in node[4]:
+            ctx.check(O.doc_polarity(v, X, True), 'C01.inst.inadmissible-instance-accepted[positive]', what)
+        for X in node[5]:
+            ctx.check(O.doc_polarity(v, X, False), 'C01.inst.inadmissible-instance-accepted[negative]', what)
+    from .c11 import _norm
+
+    got = rsbridge.from_rs(stack[-1].f_0)
+    want = O.inst(tp, sig)
+    ctx.check(O.eq(_norm(got), _norm(want)), f'C01.inst.not-the-instance[{tp[0]}]', lambda: f'{O.show(tp)} . { {k: O.show(v) for k, v in sig.items()} } gives {O.show(got)}, the instance is {O.show(want)}')
+
+
 def h_plumbing(ctx: Any, phase: str, twin: bool = False) -> None:
     """no instruction other than the axiom schemas and rules turns anything into a proved term
     (except gamma-phase Publish, which records an axiom), and proof-phase Publish only discharges a proved claim"""
@@ -450,6 +495,8 @@ def levels(tier: str) -> list[dict]:
             if rule == 'subst' and n > (4 if q else 5):
                 continue
             L.append(dict(label=f'L-schema/{rule}/premise={n},values<={1 if q else 2}', module=M, fn='h_schema', kwargs=dict(rule=rule, n=n, m=1 if q else 2), budget_s=bud, required=n <= 3, twin=(n == 3 and rule == 'gen')))
+    for n in ([2, 3, 4] if q else [2, 3, 4, 5]):
+        L.append(dict(label=f'L-inst/theorem={n},plugs<={1 if q else 2}', module=M, fn='h_inst_adm', kwargs=dict(n=n, m=1 if q else 2), budget_s=bud, required=n <= 3, twin=(n == 3)))
     for ph in ('gamma', 'claim', 'proof'):
         L.append(dict(label=f'L-plumbing/{ph}', module=M, fn='h_plumbing', kwargs=dict(phase=ph), budget_s=bud, required=True, twin=(ph == 'proof')))
     return L
